@@ -826,6 +826,14 @@ qb_ipcs_us_connect(struct qb_ipcs_service *s,
 	}
 	(void)strlcpy(r->request, path, PATH_MAX);
 	(void)strlcpy(c->request.u.us.shared_file_name, r->request, NAME_MAX);
+	/* created 0600 and ours: drop what the authorised mode does not have
+	 * before the file changes hands, widen afterwards */
+	res = chmod(r->request, c->auth.mode & (S_IRUSR | S_IWUSR));
+	if (res != 0) {
+		/* ignore res, this is just for the compiler warnings.
+		 */
+		res = 0;
+	}
 	res = chown(r->request, c->auth.uid, c->auth.gid);
 	if (res != 0) {
 		/* ignore res, this is just for the compiler warnings.
